@@ -73,11 +73,13 @@ func TestPropE2EHTTPConcurrent(t *testing.T) {
 			e.ReqLen, e.RespLen = len(e.ReqBody), len(e.RespBody)
 			ex[i] = e
 		}
-		concCase(rt, pair[0], pair[1], ex, together)
+		useStream := pair[0] == "Http2" && pair[1] == "Http2" && rapid.Bool().Draw(rt, "http2UseStream")
+		concCase(rt, pair[0], pair[1], ex, together, useStream)
 	})
 }
 
-func concCase(rt *rapid.T, down, up string, ex []*concExchange, together bool) {
+func concCase(rt *rapid.T, down, up string, ex []*concExchange, together bool, useStreamOpt ...bool) {
+	useStream := len(useStreamOpt) > 0 && useStreamOpt[0]
 	n := len(ex)
 	pairName := down + "-" + up
 	var mu sync.Mutex
@@ -156,6 +158,11 @@ func concCase(rt *rapid.T, down, up string, ex []*concExchange, together bool) {
 			typ = "http2Tohttp"
 		}
 		o.StreamFilters = []v2.Filter{{Type: "transcoder", Config: map[string]interface{}{"type": typ}}}
+	}
+	if useStream {
+		// HTTP/2 streaming mode of the proxy (extend_config Http2.http2_use_stream): bodies are passed on as they arrive
+		o.ProxyExtend = map[string]interface{}{"Http2": map[string]interface{}{"http2_use_stream": true}}
+		ev.Class(partHTTPConc, "http2_use_stream")
 	}
 	cs, err := mesh.NewCaseBound(o)
 	if err != nil {
